@@ -190,6 +190,17 @@ def shard_config(arg):
         # the same class presented literally in graph form, for a graph of the orbit that need not be edge-minimal
         grng = fw.rng_for("c05g", seed, n, name, k)
         subjects.append(("graph-form", lc.graph_state_gens(n, members.random_lc_walk(n, orbit, grng))))
+        # spare qubits of the register left in |0> (or |1>): the graph state of the table's graph / of another graph of the orbit in
+        # vertex order, with the generator of every isolated vertex written as +-Z instead of X -- how a user writes "a Bell pair
+        # on qubits 0 and 3 of a five-qubit register"
+        for lab0, g0 in (("table-graph", gid), ("orbit-graph", members.random_lc_walk(n, orbit, fw.rng_for("c05i", seed, n, name, k)))):
+            adj = lc.adj_from_gid(n, g0)
+            iso = [v for v in range(n) if not adj[v]]
+            if iso:
+                gz = list(lc.graph_state_gens(n, g0))
+                for v in iso:
+                    gz[v] = ((fw.h64("c05is", seed, n, name, k, v) >> 3) & 1 if lab0 == "orbit-graph" else 0, 0, 1 << v)
+                subjects.append((f"idle-qubits-in-0:{lab0}", gz))
         for label, gens in subjects:
             try:
                 c, ops = prep_cost(n, name, gens)
